@@ -151,14 +151,28 @@ func vecElem(rt *rapid.T, u *am.Universe, depth int) *am.Type {
 }
 
 // GenUniverse draws a universe of n identified struct types, possibly opaque, recursive and mutually recursive.
-func GenUniverse(rt *rapid.T, maxDefs int) *am.Universe {
+func GenUniverse(rt *rapid.T, maxDefs int) *am.Universe { return GenUniverseWith(rt, maxDefs, false) }
+
+// GenUniverseWith is GenUniverse with a choice about digit-only struct names (`%"42"`). The library keeps
+// such a name with its quotes and sorts it by that representation, i.e. before the `$` names of the alias
+// noise, which then meets KF-C01-nonstruct-named-type-order; only checks that do not print whole modules
+// through LLVM (C16) ask for them.
+func GenUniverseWith(rt *rapid.T, maxDefs int, numericNames bool) *am.Universe {
 	n := rapid.IntRange(0, maxDefs).Draw(rt, "ndefs")
 	u := &am.Universe{}
 	names := map[string]bool{}
 	adv := NewAdvNames(rt, "tadv")
 	for i := 0; i < n; i++ {
 		var name string
-		switch rapid.IntRange(0, 5).Draw(rt, "nameKind") {
+		kinds := 5
+		if numericNames {
+			kinds = 6
+		}
+		switch rapid.IntRange(0, kinds).Draw(rt, "nameKind") {
+		case 6:
+			// a name made of digits: spelled %"42" in LLVM assembly (not the numbered type %42); the library
+			// keeps the quotes in TypeName to tell the two apart (see emit.TypeName)
+			name = fmt.Sprint(40 + 3*i)
 		case 0:
 			name = fmt.Sprintf("struct.S%d", i)
 		case 1:
